@@ -529,12 +529,12 @@ pub fn check_c05(ctx: &Ctx, out: &mut Outcome) {
         let mut d = Case { kind: Kind::Lru, cfg: Cfg::simple(1), keys: KeyMode::Tracked, alphabet: 0, ops: vec![] };
         d.cfg.sketch_seed = Some(fnv64(serde_json::to_string(c).unwrap_or_default().as_bytes()));
         d
-    }, &ctx.id, ctx.seed, 0xe6, ctx.workers, ctx.cases(600, 20000), &ctx.known);
+    }, &ctx.id, ctx.seed, 0xe6, ctx.workers, ctx.cases(5000, 100000), &ctx.known);
     finish(ctx, "", acc, found, out, "e6", &e6_report, &|c, _f| c.clone());
     // (c) operation sequences
-    check_e1(ctx, Prop::C05, out, 1500, 40000);
-    check_tinylfu(ctx, E7Prop::C05, out, 800, 20000, "");
-    check_sampled(ctx, E7Prop::C05, out, 800, 20000, "");
+    check_e1(ctx, Prop::C05, out, 12000, 250000);
+    check_tinylfu(ctx, E7Prop::C05, out, 5000, 100000, "");
+    check_sampled(ctx, E7Prop::C05, out, 5000, 100000, "");
 }
 
 // ------------------------------------------------------------------------------ C18
@@ -601,5 +601,31 @@ pub fn check_c19(ctx: &Ctx, out: &mut Outcome) {
     }
     if let Some(why) = r.inconclusive {
         out.inconclusive = Some(why);
+    }
+}
+
+// ------------------------------------------------------------------------------ E2
+
+pub fn check_e2(ctx: &Ctx, prop: Prop, kinds: &[Kind], out: &mut Outcome) {
+    let r = crate::e2::run_e2(kinds, prop, ctx.tier == Tier::Thorough, ctx.workers);
+    let cov = &mut out.coverage;
+    let cur = cov.get("evaluations").and_then(|x| x.as_u64()).unwrap_or(0);
+    cov.insert("evaluations".into(), json!(cur + r.transitions));
+    cov.insert("states".into(), json!(r.states));
+    cov.insert("transitions".into(), json!(r.transitions));
+    cov.insert("e2_max_depth".into(), json!(r.depth));
+    cov.insert("e2_frontier_closed".into(), json!(r.closed));
+    cov.insert("e2_configs".into(), Value::Array(r.per_config.clone()));
+    cov.insert("e2_note".into(), json!("small-scope closure: reachable abstract model states (list orders, p) enumerated breadth-first; from every state every state-changing op x key (alphabet cap+2) executed on the real cache (driven along the stored path) and on the model with the property's oracle on"));
+    if let Some((case, v)) = r.violation {
+        if ctx.known.matches(&ctx.id, &v.sig).is_none() {
+            let known = &ctx.known;
+            let pid = ctx.id.clone();
+            let fails = |c: &Case| -> bool { matches!(exec_case(c, prop).violation, Some(ref v) if known.matches(&pid, &v.sig).is_none()) };
+            let min = minimize(&case, &fails);
+            let v = exec_case(&min, prop).violation.unwrap_or(v);
+            let path = write_replay(&ctx.replay_dir(), &ctx.id, "e2", serde_json::to_value(&min).unwrap(), &v);
+            out.violations.push((path, v.msg));
+        }
     }
 }
